@@ -1476,3 +1476,99 @@ func init() {
 	registry["C03"].Meta.Rules["C03.14"] = "every creation call validates its path, and the validators agree: each exported function of the root package that hands a parameter to parsePath has run a validate* function on it on every path, and every such validator makes all the tests any of them makes (empty path, leading slash, the root itself, consecutive slashes) - a path with an empty last component ('//', or '/' for a dataset) would be stored as an empty name whose heap offset the next name reuses, so that the reopened group lists that name twice"
 	registry["C03"].Rules = append(registry["C03"].Rules, func(c *Ctx, r *Result) { pathValidationRule(c, r, "C03.14") })
 }
+
+// ---- a backward scan reaches index 0 (C03.15) ----
+//
+// for i := len(s)-1; i >= 0; i-- { if s[i] ... } looks at every element. With i > 0 the first element is never looked at; for the
+// name heap, whose first name starts at offset 0, a heap that holds one one-character name counts as empty and the next name is
+// written over it. The rule covers loops that count an index down by one, index a sequence with exactly that index (and not with
+// i-1: pairwise loops legitimately stop at 1) and exit when i drops below a constant bound.
+func backwardScanRule(c *Ctx, r *Result, rule string, scope func(string) bool, floor int) {
+	n := 0
+	for _, fn := range c.LibFuncs() {
+		if scope != nil && !scope(c.Name(fn)) {
+			continue
+		}
+		k := 0
+		for _, h := range fn.Blocks {
+			ifi, ok := h.Instrs[len(h.Instrs)-1].(*ssa.If)
+			if !ok {
+				continue
+			}
+			cmp, ok := ifi.Cond.(*ssa.BinOp)
+			if !ok || (cmp.Op != token.GEQ && cmp.Op != token.GTR) {
+				continue
+			}
+			phi, ok := cmp.X.(*ssa.Phi)
+			if !ok || phi.Block() != h {
+				continue
+			}
+			bound, okb := constInt(cmp.Y)
+			if !okb {
+				continue
+			}
+			// counts down by one on every back edge
+			down := true
+			back := 0
+			for i, p := range h.Preds {
+				if !h.Dominates(p) {
+					continue
+				}
+				back++
+				bo, isB := phi.Edges[i].(*ssa.BinOp)
+				if !isB || bo.X != ssa.Value(phi) {
+					down = false
+					continue
+				}
+				kk, okk := constInt(bo.Y)
+				if !(okk && ((bo.Op == token.SUB && kk == 1) || (bo.Op == token.ADD && kk == -1))) {
+					down = false
+				}
+			}
+			if !down || back == 0 {
+				continue
+			}
+			loop := naturalLoop(h)
+			usesI, usesIminus := false, false
+			for b := range loop {
+				for _, in := range b.Instrs {
+					var idx ssa.Value
+					switch x := in.(type) {
+					case *ssa.IndexAddr:
+						idx = x.Index
+					case *ssa.Index:
+						idx = x.Index
+					case *ssa.Lookup:
+						idx = x.Index
+					default:
+						continue
+					}
+					if stripConv(idx) == ssa.Value(phi) {
+						usesI = true
+					} else if bo, isB := stripConv(idx).(*ssa.BinOp); isB && bo.X == ssa.Value(phi) && bo.Op == token.SUB {
+						usesIminus = true
+					}
+				}
+			}
+			if !usesI || usesIminus {
+				continue
+			}
+			n++
+			k++
+			// lowest index visited: bound for >=, bound+1 for >
+			low := bound
+			if cmp.Op == token.GTR {
+				low = bound + 1
+			}
+			r.Check(low <= 0, rule, fmt.Sprintf("%s#backward-scan-%d", c.Name(fn), k), c.InstrPos(cmp), fmt.Sprintf("the scan counts the index down to %d; the element at index 0 is looked at only if that is 0", low))
+		}
+	}
+	if n < floor {
+		r.Shortfall(c, rule, fmt.Sprintf("%s: only %d backward scans found (expected >= %d)", rule, n, floor))
+	}
+}
+
+func init() {
+	registry["C03"].Meta.Rules["C03.15"] = "a backward scan reaches index 0: a loop that counts an index down by one and indexes a sequence with exactly that index runs while the index is >= 0 (with > 0 the first element is never examined: a name heap holding a single one-character name at offset 0 is taken as empty by PrepareForModification, and the second name of the group overwrites the first)"
+	registry["C03"].Rules = append(registry["C03"].Rules, func(c *Ctx, r *Result) { backwardScanRule(c, r, "C03.15", nil, 3) })
+}
